@@ -81,7 +81,7 @@ def run(ctx):
     from .. import trees as TR
 
     T = ctx.tier == "thorough"
-    nmax = 10 if T else 8
+    nmax = 11 if T else 8
     fams = TR.READ_FAMILIES
     idx = 0
     for n in range(1, nmax + 1):
@@ -99,7 +99,7 @@ def run(ctx):
                 ctx.case((fam, par, s), nontrivial=bool(ch[s]), sample=dict(case, start=s) if (idx * 13 + s) % 1999 == 0 else None)
             check_tree(ctx, nodes, list(par), ch, case)
         ctx.exhaustive.append("all %d ordered trees with %d nodes x every start node x 5 iterators" % (cnt, n))
-    nrand = (20000 if T else 640) // ctx.nshards + 1
+    nrand = (100000 if T else 640) // ctx.nshards + 1
     for r in range(nrand):
         rng = ctx.rng("shape", r)
         n = rng.randint(5, 60)
@@ -124,7 +124,7 @@ def histories(ctx):
     from .. import trees as TR
 
     T = ctx.tier == "thorough"
-    nh = (3000 if T else 240) // ctx.nshards + 1
+    nh = (30000 if T else 240) // ctx.nshards + 1
     for h in range(nh):
         rng = ctx.rng("hist", h)
         fam = TR.READ_FAMILIES[h % len(TR.READ_FAMILIES)]
